@@ -5,6 +5,7 @@ import (
 	"go/constant"
 	"go/token"
 	"go/types"
+	"sort"
 
 	"golang.org/x/tools/go/ssa"
 )
@@ -522,7 +523,19 @@ func ruleRDefer(p *Program, r *Reporter) {
 		}
 		return
 	}
-	for _, fn := range append([]*ssa.Function{hd}, hd.AnonFuncs...) {
+	// the reconnect attempt may live in a private helper of the handler (and its closures)
+	var scan []*ssa.Function
+	for g := range region {
+		scan = append(scan, g)
+	}
+	if !region[hd] {
+		scan = append(scan, hd)
+	}
+	sort.Slice(scan, func(i, j int) bool { return scan[i].Pos() < scan[j].Pos() })
+	for _, fn := range scan {
+		if fn == connect {
+			continue
+		}
 		fc := newFlowCtx(fn)
 		for _, b := range fn.Blocks {
 			for _, ins := range b.Instrs {
